@@ -177,6 +177,10 @@ def cmd_check(a):
                "choices": v["min_choices"], "digest": v["min_digest"], "original_choices_len": len(v["choices"]),
                "minimiser_executions": v["min_execs"], "minimised": v.get("minimised", True),
                "schedule": v["min_labels"], "trace": v["min_trace"]}
+        if v.get("prelude"):
+            # runs of the same process that went before the judged one and are needed for it to fail (state that outlives
+            # a connection / session); replayed first, not judged
+            rep["prelude"] = v["prelude"]
         with open(path, "w") as f:
             json.dump(rep, f, indent=1)
         try:
